@@ -224,6 +224,19 @@ func RouteSpecs(thorough bool) []*spec.Spec {
 				spec.RPC("PatchShop", "ItemRef", "Out", "PATCH", "/shops/{shop_id}"))}}
 		out = append(out, withCell(spec.One("route_shared_request", f), "route/unit=shared_request_message", "extended", "valid", "route"))
 	}
+	{
+		// N: templates of the same segment shape whose variables have different names, on different verbs of one service (each
+		// request message names its own key field): every RPC keeps its own template
+		f := &spec.File{Messages: out1(spec.M("ItemKey", spec.F("id", "string")), spec.M("ItemDel", spec.F("item_id", "string")),
+			spec.M("ItemPut", spec.F("key", "string"), spec.F("name", "string")), spec.M("PairKey", spec.F("a", "string"), spec.F("b", "string")), spec.M("PairDel", spec.F("x", "string"), spec.F("y", "string"))),
+			Services: []*spec.Service{spec.Svc("ShapeService", "/api/v1",
+				spec.RPC("GetItem", "ItemKey", "Out", "GET", "/items/{id}"),
+				spec.RPC("DeleteItem", "ItemDel", "Out", "DELETE", "/items/{item_id}"),
+				spec.RPC("PutItem", "ItemPut", "Out", "PUT", "/items/{key}"),
+				spec.RPC("GetPair", "PairKey", "Out", "GET", "/pairs/{a}/with/{b}"),
+				spec.RPC("DeletePair", "PairDel", "Out", "DELETE", "/pairs/{x}/with/{y}"))}}
+		out = append(out, withCell(spec.One("route_same_shape_names", f), "route/unit=same_shape_different_variable_names", "extended", "valid", "route"))
+	}
 	return out
 }
 
